@@ -51,7 +51,7 @@ SPEC = dict(
                "(pre_tls_element_is_rejected); features without starttls, <failure/> to starttls, and <proceed/> + failed handshake each end in "
                "stream close + disconnected (tls_unavailable_disconnects, starttls_failure_disconnects, failed_handshake_disconnects); "
                "'version-less header => give up'; 'jabber:client IQ request before TLS => rejected'. The scripts that used to leak (fixed by "
-               "e0bbad9, fa0779c and 0b10c27: foreign-namespace version IQ, <r/> after a redirect with stream management left on) are replayed first.",
+               "e0bbad9, fa0779c and e3d3c0f: foreign-namespace version IQ, <r/> after a redirect with stream management left on) are replayed first.",
     level_note="Also proved: an application that sends only while isConnected() (and connects only while disconnected) satisfies the scope "
                "hypothesis automatically - with TLS required isConnected() implies an encrypted link; and a request sent on a connected "
                "unencrypted link does go out in clear (the scope hypothesis cannot be dropped). Proved about the hand-written model; the model-to-code tie is differential (exhaustive to depth 3/4 over a reduced "
